@@ -229,7 +229,7 @@ InvTol inv_tol(const ref::rhumb::Inv& R, const EllRec& e, double a, double lat1 
   L floor_m = 4 * g * EPS * a * (M_PI / 2);
   t.s12 = 16 * g * EPS * (R.s12 + ps * mh) + floor_m;
   t.azi = R.hyp > 0 ? (L)(16 * g * EPS * (ps * fabsl(R.lam12) + fabsl(R.lam12 * R.psi12)) / (R.hyp * R.hyp) / DEG + 8 * EPS * fabsl(R.azi12)
-                          + (R.s12 > 0 ? floor_m / R.s12 / DEG : 0) + 1e-320L) : (L)INFINITY;
+                          + (R.s12 > 0 ? floor_m / R.s12 / DEG : 0) + 1e-290L) : (L)INFINITY;
   t.S12 = 32 * ecc_area(e) * EPS * R.c2 * fabsl(R.lam12) + 1e-300L * R.c2;
   return t;
 }
@@ -322,9 +322,9 @@ DirTol dir_tol(const ref::rhumb::Dir& D, const EllRec& e, double lon1, bool unro
   // (the difference of two tangents ~ eps tan(phi) is then below DBL_MIN: relative error TRUE_MIN / (eps tan(phi)))
   if (lat1 != 0 && std::fabs(lat1) < 1e-290) g += std::min(1e30, DBL_TRUE_MIN / std::max(DBL_TRUE_MIN, std::fabs(lat1) * (M_PI / 180) * EPS) / EPS);
   t.mu2 = 8 * g * EPS * (fabsl(D.mu1) + fabsl(D.mu12) + 1e-300L);
-  t.lat2 = t.mu2 * D.dphi_dmu2 + 16 * g * EPS * fabsl(D.lat2) + 1e-320L;
+  t.lat2 = t.mu2 * D.dphi_dmu2 + 16 * g * EPS * fabsl(D.lat2) + 1e-290L;   // absolute floor: intermediates of results below DBL_MIN / eps are denormal
   L lon2abs = unroll ? fabsl((L)lon1 + D.lon12) : (L)180;
-  t.lon12 = 16 * g * EPS * fabsl(D.lon12) + D.cond_lon * t.mu2 + 4 * EPS * (fabsl((L)lon1) + lon2abs) + 1e-320L;
+  t.lon12 = 16 * g * EPS * fabsl(D.lon12) + D.cond_lon * t.mu2 + 4 * EPS * (fabsl((L)lon1) + lon2abs) + 1e-290L;
   t.S12 = 128 * ecc_area(e) * EPS * D.c2 * fabsl(D.lon12) * DEG + D.cond_S * t.mu2 + D.c2 * (D.cond_lon * t.mu2) * DEG + 1e-300L * D.c2;
   return t;
 }
